@@ -282,6 +282,65 @@ static void scenario_blocks_native(Src &s) {
   snprintf(V.msg + strlen(V.msg), sizeof V.msg - strlen(V.msg), " [native n=%zu cut=%lu threads=%d blocks=%u]", n, p.cut, p.threads, parts);
 }
 
+#ifndef VERIF_NATIVE
+// ------------------------------------------------------------------ C09, enumeration stage
+// One case = one configuration (2-4 one-string blocks, 1-3 worker threads, overhead); every schedule with
+// at most `bound` pre-emptions is executed in-process and compared with the single-thread image.
+static void scenario_blocks_enum(int stratum, int bound, long cap) {
+  int threads = 1 + stratum % 3, nblocks = 2 + (stratum / 3) % 3;
+  std::vector<std::string> S;
+  for (int i = 0; i < nblocks; i++) S.push_back(std::string(1, (char)('a' + i)) + (i % 2 ? "xy" : "x"));
+  Params p;
+  p.kind = K_BLOCKS;
+  p.overhead = (stratum / 9) % 2 ? 0 : 25;
+  p.cut = 1;
+  p.threads = threads;
+  Params p1 = p;
+  p1.threads = 1;
+  std::string ref;
+  { StringDictionary *d = build_dict(p1, S); ref = save_image(d); delete d; }
+  if (threads == 3 && bound > 1) bound--;
+  std::vector<unsigned char> prefix;
+  long runs = 0, points = 0, pre = 0;
+  int complete = 0;
+  vsched_on_deadlock = on_deadlock_enum;
+  while (true) {
+    vsched_begin_enum(prefix.data(), prefix.size(), bound);
+    vsched_on_deadlock = on_deadlock_enum;
+    StringDictionary *d = build_dict(p, S);
+    vsched_stats st = vsched_end();
+    runs++;
+    points += st.points; pre += st.preemptions;
+    V.threads = st.threads;
+    std::string img = save_image(d);
+    if (img != ref) fail("image-differs", "image built with " + std::to_string(threads) + " threads differs from the single-thread image");
+    for (size_t id = 1; id <= S.size() && !V.code; id++) {
+      uint len = 0;
+      uchar *e = d->extract(id, &len);
+      if (!e) { fail("block-incomplete", "extract(" + std::to_string(id) + ") is NULL after the constructor returned"); break; }
+      if (std::string((char *)e, len) != S[id - 1]) fail("strings-lost", "extract(" + std::to_string(id) + ") is not the input string of that block");
+      delete[] e;
+    }
+    delete d;
+    if (V.code) { snprintf(V.msg + strlen(V.msg), sizeof V.msg - strlen(V.msg), " after choices %s", enum_list().substr(0, 150).c_str()); break; }
+    static unsigned char c[4096], k[4096];
+    size_t n = vsched_enum_trace(c, k, 4096);
+    if (n > 4096) { snprintf(V.clause, sizeof V.clause, "inconclusive"); snprintf(V.msg, sizeof V.msg, "more than 4096 choice points"); break; }
+    long i = (long)n - 1;
+    while (i >= 0 && c[i] + 1 >= k[i]) i--;
+    if (i < 0) { complete = 1; break; }
+    prefix.assign(c, c + i);
+    prefix.push_back((unsigned char)(c[i] + 1));
+    if (runs >= cap) break;
+  }
+  V.schedules = runs; V.complete = complete; V.points = points; V.preemptions = pre;
+  V.blocks = nblocks;
+  V.nontrivial = runs >= 2;
+  if (!V.code && strcmp(V.clause, "inconclusive") != 0)
+    snprintf(V.msg, sizeof V.msg, "[enum blocks=%d threads=%d overhead=%d bound=%d schedules=%ld complete=%d]", nblocks, threads, p.overhead, bound, runs, complete);
+}
+#endif
+
 // ------------------------------------------------------------------ entry
 int run_case(const uint8_t *data, size_t n, CaseCtx &ctx) {
   const std::string &P = cfg.prop;
@@ -310,12 +369,13 @@ int run_case(const uint8_t *data, size_t n, CaseCtx &ctx) {
       }
     }
 #else
-    if (P == "C10" && cfg.param.compare(0, 4, "enum") == 0) {
+    if (cfg.param.compare(0, 4, "enum") == 0) {
       // param: enum:<bound>:<cap>
       int bound = 2; long cap = 200000;
       sscanf(cfg.param.c_str(), "enum:%d:%ld", &bound, &cap);
       alarm(3000);
-      scenario_pool_enum(cfg.stratum < 0 ? 0 : cfg.stratum, bound, cap);
+      if (P == "C10") scenario_pool_enum(cfg.stratum < 0 ? 0 : cfg.stratum, bound, cap);
+      else scenario_blocks_enum(cfg.stratum < 0 ? 0 : cfg.stratum, bound, cap);
     }
     else if (P == "C10") scenario_pool(s, schedule);
     else scenario_blocks(s, schedule);
